@@ -94,6 +94,16 @@ Theorem C09_ffi_total :
   forall (prof : profile) (c : container) (name : str), bytes_ok c -> ffi_get_table prof c name <> Panic.
 Proof. exact ffi_get_table_total. Qed.
 
+(* FFI get_information: rendering the creation time never panics (guard regenerated from ffi/src/lib.rs) *)
+Theorem C09_ffi_info_time_total :
+  forall ticks : option N, ffi_info_time ticks <> Panic.
+Proof. exact ffi_info_time_total. Qed.
+
+(* the repaired defect (dea2b60): unguarded, 10000-01-01 panics *)
+Theorem C09_ffi_info_time_before_fix :
+  RFC2822_LIMIT_TICKS < 18446744073709551616 /\ ffi_info_time_with true (Some RFC2822_LIMIT_TICKS) = Panic.
+Proof. exact ffi_info_time_unguarded_panics. Qed.
+
 Print Assumptions C09_failure_flags.
 Print Assumptions C09_read_pool_total.
 Print Assumptions C09_read_rows_total.
@@ -109,3 +119,5 @@ Print Assumptions C09_insert_total.
 Print Assumptions C09_update_total.
 Print Assumptions C09_ffi_flag.
 Print Assumptions C09_ffi_total.
+Print Assumptions C09_ffi_info_time_total.
+Print Assumptions C09_ffi_info_time_before_fix.
